@@ -1046,3 +1046,132 @@ Proof.
     + apply pq_ok_sent. exact (conj N1 (conj N2 (conj N3 N4))).
     + cbn. lia.
 Qed.
+
+(* --- the egress loop of Interface::poll = every pending query dispatched exactly once --- *)
+Definition dns_done_slot (cfg : dns_cfg) (servers : list (list Z)) (now : Z) (o : option dns_qstate)
+  : option dns_qstate :=
+  match o with
+  | Some (QPending pq) =>
+    match dns_dispatch_query cfg servers now true pq with
+    | Ok r => Some (dq_state r)
+    | _ => o
+    end
+  | _ => o
+  end.
+
+Lemma dns_done_slot_ok : forall cfg servers now o,
+  cfg_ok cfg -> slot_ok cfg o -> slot_ok cfg (dns_done_slot cfg servers now o).
+Proof.
+  intros cfg servers now o Hc Ho. destruct o as [[pq|a|]|]; cbn; auto.
+  destruct (dns_dispatch_query cfg servers now true pq) as [r| |] eqn:E; auto.
+  eapply dns_dispatch_query_state_ok; eauto.
+Qed.
+
+(* one pass over slots that have not been dispatched at [now] yet *)
+Lemma dns_dispatch_slots_fresh : forall cfg servers now qs,
+  cfg_ok cfg -> Forall (slot_ok cfg) qs ->
+  exists qs' res, dns_dispatch_slots cfg servers now true qs = Ok (qs', res) /\
+    ((res = DrNone /\ qs' = map (dns_done_slot cfg servers now) qs) \/
+     (exists tx a b, res = DrEmit tx /\ qs = a ++ b /\ a <> [] /\
+                     qs' = map (dns_done_slot cfg servers now) a ++ b)).
+Proof.
+  induction qs as [|q rest IH]; intros Hc Hq; cbn [dns_dispatch_slots].
+  { do 2 eexists; split; [reflexivity|]. left; auto. }
+  inv Hq. destruct (IH Hc H2) as (rest' & res & Er & Cr).
+  assert (Skip : dns_done_slot cfg servers now q = q ->
+          exists qs' res0, (do '(rest'0, res1) <- dns_dispatch_slots cfg servers now true rest; Ok (q :: rest'0, res1)) = Ok (qs', res0) /\
+            ((res0 = DrNone /\ qs' = map (dns_done_slot cfg servers now) (q :: rest)) \/
+             (exists tx a b, res0 = DrEmit tx /\ q :: rest = a ++ b /\ a <> [] /\
+                             qs' = map (dns_done_slot cfg servers now) a ++ b))).
+  { intros Eq. rewrite Er. cbn [obind]. do 2 eexists; split; [reflexivity|].
+    destruct Cr as [[-> ->]|(tx & a & b & -> & -> & Ha & ->)].
+    - left. split; [reflexivity|]. cbn [map]. rewrite Eq. reflexivity.
+    - right. exists tx, (q :: a), b. repeat split; try discriminate. cbn [map app]. rewrite Eq. reflexivity. }
+  destruct q as [[pq|addrs|]|]; try (apply Skip; reflexivity).
+  destruct (dns_dispatch_query_spec cfg servers now pq Hc H1) as (r & E & C). rewrite E. cbn [obind].
+  assert (Ed : dns_done_slot cfg servers now (Some (QPending pq)) = Some (dq_state r)) by (cbn; rewrite E; reflexivity).
+  destruct C as [[-> _]|[[-> _]|(tx & dst & -> & _)]].
+  - rewrite Er. cbn [obind]. do 2 eexists; split; [reflexivity|].
+    destruct Cr as [[-> ->]|(tx & a & b & -> & -> & Ha & ->)].
+    + left. split; [reflexivity|]. cbn [map]. rewrite Ed. reflexivity.
+    + right. exists tx, (Some (QPending pq) :: a), b. repeat split; try discriminate. cbn [map app]. rewrite Ed. reflexivity.
+  - rewrite Er. cbn [obind]. do 2 eexists; split; [reflexivity|].
+    destruct Cr as [[-> ->]|(tx & a & b & -> & -> & Ha & ->)].
+    + left. split; [reflexivity|]. cbn [map]. rewrite Ed. reflexivity.
+    + right. exists tx, (Some (QPending pq) :: a), b. repeat split; try discriminate. cbn [map app]. rewrite Ed. reflexivity.
+  - do 2 eexists; split; [reflexivity|]. right. exists tx, [Some (QPending pq)], rest.
+    repeat split; try discriminate. cbn [map app]. rewrite Ed. reflexivity.
+Qed.
+
+(* slots already dispatched at [now] are passed over unchanged *)
+Lemma dns_dispatch_slots_done_prefix : forall cfg servers now pre rest,
+  cfg_ok cfg -> Forall (slot_ok cfg) pre ->
+  dns_dispatch_slots cfg servers now true (map (dns_done_slot cfg servers now) pre ++ rest) =
+  (do '(rest', res) <- dns_dispatch_slots cfg servers now true rest;
+   Ok (map (dns_done_slot cfg servers now) pre ++ rest', res)).
+Proof.
+  induction pre as [|q pre IH]; intros rest Hc Hp; cbn [map app].
+  { destruct (dns_dispatch_slots cfg servers now true rest) as [[a b]| |]; reflexivity. }
+  inv Hp. specialize (IH rest Hc H2).
+  assert (Skip : forall o, (forall pq, o <> Some (QPending pq)) ->
+     dns_dispatch_slots cfg servers now true (o :: map (dns_done_slot cfg servers now) pre ++ rest) =
+     (do '(rest', res) <- dns_dispatch_slots cfg servers now true rest;
+      Ok (o :: map (dns_done_slot cfg servers now) pre ++ rest', res))).
+  { intros o Ho. cbn [dns_dispatch_slots]. rewrite IH.
+    destruct o as [[pq|a|]|]; try (exfalso; eapply Ho; reflexivity);
+      destruct (dns_dispatch_slots cfg servers now true rest) as [[a' b']| |]; reflexivity. }
+  destruct q as [[pq|addrs|]|]; try (apply Skip; intros; discriminate).
+  cbn [dns_done_slot].
+  destruct (dns_dispatch_query_spec cfg servers now pq Hc H1) as (r & E & _). rewrite E.
+  destruct (dq_state r) as [pq'|a|] eqn:Es; try (apply Skip; intros; discriminate).
+  cbn [dns_dispatch_slots]. rewrite (dns_dispatch_query_stable _ _ _ _ _ _ Hc H1 E Es). cbn [obind].
+  rewrite IH. destruct (dns_dispatch_slots cfg servers now true rest) as [[a' b']| |]; reflexivity.
+Qed.
+
+Lemma dns_poll_go_spec : forall cfg fuel servers owned now pre rest acc,
+  cfg_ok cfg -> Forall (slot_ok cfg) pre -> Forall (slot_ok cfg) rest ->
+  (length rest < fuel)%nat ->
+  exists txs,
+    dns_poll_go cfg fuel (mkSock servers (map (dns_done_slot cfg servers now) pre ++ rest) owned) now acc =
+    Ok (mkSock servers (map (dns_done_slot cfg servers now) (pre ++ rest)) owned, txs, false).
+Proof.
+  induction fuel as [|fuel IH]; intros servers owned now pre rest acc Hc Hp Hr Hf; [lia|].
+  cbn [dns_poll_go]. unfold dns_dispatch. cbn [ds_servers ds_queries ds_owned].
+  rewrite dns_dispatch_slots_done_prefix by assumption.
+  destruct (dns_dispatch_slots_fresh cfg servers now rest Hc Hr) as (rest' & res & E & C).
+  rewrite E. cbn [obind].
+  destruct C as [[-> ->]|(tx & a & b & -> & -> & Ha & ->)].
+  - eexists. rewrite map_app. reflexivity.
+  - apply Forall_app in Hr. destruct Hr as [Hra Hrb].
+    rewrite app_assoc. rewrite <- map_app.
+    destruct (IH servers owned now (pre ++ a) b (acc ++ [tx]) Hc) as (txs & Et); auto.
+    { apply Forall_app; split; assumption. }
+    { rewrite app_length in Hf. destruct a; [congruence|]. simpl in Hf. lia. }
+    rewrite Et. rewrite <- app_assoc. eauto.
+Qed.
+
+(* Interface::poll for the DNS socket: terminates within the fuel (no HANG), and every slot ends
+   up exactly as one call of the per-query dispatch leaves it *)
+Lemma dns_poll_spec : forall cfg s now,
+  cfg_ok cfg -> sock_ok cfg s ->
+  exists txs,
+    dns_poll cfg s now =
+    Ok (mkSock (ds_servers s) (map (dns_done_slot cfg (ds_servers s) now) (ds_queries s)) (ds_owned s), txs, false).
+Proof.
+  intros cfg s now Hc Hs. unfold dns_poll.
+  destruct (dns_poll_go_spec cfg (S (length (ds_queries s))) (ds_servers s) (ds_owned s) now [] (ds_queries s) [] Hc)
+    as (txs & E); auto.
+  destruct s; cbn in *. eauto.
+Qed.
+
+Lemma dns_poll_sock_ok : forall cfg s now s' txs hang,
+  cfg_ok cfg -> sock_ok cfg s -> dns_poll cfg s now = Ok (s', txs, hang) ->
+  sock_ok cfg s' /\ hang = false /\ ds_servers s' = ds_servers s /\
+  ds_queries s' = map (dns_done_slot cfg (ds_servers s) now) (ds_queries s).
+Proof.
+  intros cfg s now s' txs hang Hc Hs H.
+  destruct (dns_poll_spec cfg s now Hc Hs) as (txs' & E). rewrite E in H. inv H.
+  repeat split; auto. unfold sock_ok. cbn [ds_queries].
+  apply Forall_forall. intros o Ho. apply in_map_iff in Ho. destruct Ho as (o' & <- & Ho').
+  apply dns_done_slot_ok; auto. unfold sock_ok in Hs. rewrite Forall_forall in Hs. auto.
+Qed.
